@@ -393,3 +393,53 @@ func (g *G) NodeList(s Shape) *sbom.NodeList {
 func (s Shape) String() string {
 	return fmt.Sprintf("nodes<=%d edges<=%d wf=%v rich=%.2f odd=%.2f", s.MaxNodes, s.MaxEdges, s.WellFormed, s.Richness, s.OddIDs)
 }
+
+// Identifiers that look like, but are not, the reader's generated ones ("protobom-" followed by flags
+// containing "auto" before the first "--"): a writer must keep them as it keeps any other identifier.
+var KeptRefLike = []string{"spring-boot-autoconfigure", "postcss-autoprefixer", "x-auto--y", "lib-auto", "-auto", "auto--1"}
+
+// The same inside the protobom- namespace: minted by the public identifier generator from a name, not by the reader.
+var KeptProtobomRefLike = []string{"protobom--autoconf", "protobom-node--gulp-autotest", "protobom--x-auto", "protobom-node--a--b-auto"}
+
+// RenameSome renames up to k random nodes of nl to distinct identifiers drawn from family (nodes,
+// edge endpoints and root elements alike). Identifiers already present are not reused.
+func (g *G) RenameSome(nl *sbom.NodeList, family []string, k int) int {
+	present := map[string]bool{}
+	for _, n := range nl.Nodes {
+		present[n.Id] = true
+	}
+	ren := map[string]string{}
+	for _, i := range g.R.Perm(len(nl.Nodes)) {
+		if len(ren) >= k {
+			break
+		}
+		to := Pick(g, family)
+		if present[to] || nl.Nodes[i].Id == "" {
+			continue
+		}
+		if _, dup := ren[nl.Nodes[i].Id]; dup {
+			continue
+		}
+		present[to] = true
+		ren[nl.Nodes[i].Id] = to
+	}
+	sub := func(s string) string {
+		if t, ok := ren[s]; ok {
+			return t
+		}
+		return s
+	}
+	for _, n := range nl.Nodes {
+		n.Id = sub(n.Id)
+	}
+	for _, e := range nl.Edges {
+		e.From = sub(e.From)
+		for i := range e.To {
+			e.To[i] = sub(e.To[i])
+		}
+	}
+	for i := range nl.RootElements {
+		nl.RootElements[i] = sub(nl.RootElements[i])
+	}
+	return len(ren)
+}
